@@ -943,3 +943,130 @@ def _from_pack(data):
     F.records = data["records"]
     F.dups = data["dups"]
     return F
+
+
+# ---- virtual inlining of single-call-site helpers -----------------------------------------------------
+def inline_single_use_helpers(F, max_blocks=60):
+    """A member function that is called from exactly one place in the parsed program, by another
+    member of the same class, on `this`, for its effect only (void), is what 'extract method'
+    produces. The rules are written against the caller's control flow, so the callee's CFG is
+    spliced into the caller at the call site (one level; the callee keeps existing as a function of
+    its own). Behaviour-preserving extraction of a block of a long function (resizeLocked, the
+    destructor, wait loops) then leaves every path query unchanged. Returns the list of
+    (caller, callee) pairs for the evidence."""
+    by_tu_calls = defaultdict(list)
+    use_locs = defaultdict(set)            # callee source pattern -> distinct call-site source locations
+    for fn in F.fns:
+        if not fn.qname.startswith("dispenso::"):
+            continue
+        for pos, nd in fn.all_nodes():
+            if nd.get("k") == "call" and nd.get("fid") is not None and nd.get("callee"):
+                g = F.by_id(fn.tu, nd["fid"])
+                if g is not None:
+                    use_locs[g.pattern_key].add(short_loc(nd.get("loc") or "") or (fn.pattern_key, nd.get("sid")))
+        for pos, ev in fn.events(include_dead=True):
+            if ev.get("k") == "call" and ev.get("fid") is not None and ev.get("callee"):
+                g = F.by_id(fn.tu, ev["fid"])
+                if g is not None:
+                    by_tu_calls[id(g)].append((fn, pos, ev, g))
+    nested_use = None
+    done = []
+    for gid, sites in by_tu_calls.items():
+        h, pos, ev, g = sites[0]
+        # the helper is used from exactly one place in the source (all instantiations alike)
+        if len(sites) != 1 or len(use_locs.get(g.pattern_key, ())) != 1:
+            continue
+        if g is h or g.is_lambda or h.is_lambda or not g.cls or g.cls != h.cls or g.tu != h.tu or g.cfg != h.cfg:
+            continue
+        if g.params or ev.get("args"):
+            continue   # only parameterless helpers: a block of the caller that was given a name
+        if ev.get("type") != "void" or ev.get("opcall") or len(g.blocks) > max_blocks or getattr(g, "_inlined_into", None) or getattr(h, "_has_inlined", None):
+            continue
+        if g.qname.endswith("(ctor)") or g.qname.endswith("(dtor)") or g.raw.get("virtual"):
+            continue
+        o = strip_casts(ev.get("obj"))
+        if not (isinstance(o, dict) and o.get("k") == "this"):
+            continue
+        if any(e2.get("fid") == h.id for _, e2 in g.events(include_dead=True) if e2.get("k") == "call"):
+            continue   # mutual recursion
+        _splice(h, pos, ev, g)
+        g._inlined_into = h
+        h._has_inlined = True
+        done.append((h.qname, g.qname))
+    F.inlined = done
+    return done
+
+
+def _splice(h, pos, call_ev, g):
+    K = 1000
+    assert len(g.blocks) + 3 < K
+    newid = {b: b * K for b in h.blocks}
+    gorder = sorted(g.blocks, reverse=True)          # entry first
+    b0 = pos.b
+    gid = {}
+    nxt = newid[b0] - 1
+    for gb in gorder:
+        if gb == g.exit:
+            continue
+        gid[gb] = nxt
+        nxt -= 1
+    cont = nxt                                          # the rest of the split block
+    loop_off = 1000
+    blocks = {}
+    for b, blk in h.blocks.items():
+        nb = dict(blk)
+        nb["id"] = newid[b]
+        nb["succs"] = [None if s is None else newid[s] for s in blk["succs"]]
+        if "succs_all" in blk:
+            nb["succs_all"] = [None if s is None else newid[s] for s in blk["succs_all"]]
+        blocks[newid[b]] = nb
+    # split the calling block
+    B = blocks[newid[b0]]
+    tail = {k: v for k, v in B.items()}
+    tail["id"] = cont
+    tail["elems"] = B["elems"][pos.i + 1:]
+    tail.pop("label", None)
+    binds = []
+    for prm, arg in zip(g.params, call_ev.get("args", [])):
+        binds.append({"k": "decl", "vid": prm.get("vid"), "name": prm.get("name"), "type": prm.get("type"), "ctype": prm.get("ctype"), "init": arg, "loc": call_ev.get("loc"), "sid": -(call_ev.get("sid", 0) * 16 + len(binds) + 1), "inlined_param": True})
+    marker = dict(call_ev)
+    marker["inlined"] = g.qname          # the call event stays visible (rules that look for the call still find it)
+    B["elems"] = B["elems"][:pos.i] + [marker] + binds
+    B["term"] = None
+    B["succs"] = [gid[g.entry]]
+    B.pop("succs_all", None)
+    B.pop("noreturn", None)
+    blocks[cont] = tail
+    for gb in gorder:
+        if gb == g.exit:
+            continue
+        blk = g.blocks[gb]
+        nb = dict(blk)
+        nb["id"] = gid[gb]
+        els = []
+        for e in blk["elems"]:
+            if e.get("k") == "return":
+                continue
+            if any(k in e for k in ("loop", "try", "catch")):
+                e = dict(e)
+                for k in ("loop", "try", "catch"):
+                    if e.get(k) is not None:
+                        e[k] = e[k] + loop_off
+            els.append(e)
+        nb["elems"] = els
+        t = blk.get("term")
+        if t and t.get("loop") is not None:
+            t = dict(t)
+            t["loop"] = t["loop"] + loop_off
+            nb["term"] = t
+        nb["succs"] = [None if s is None else (cont if s == g.exit else gid[s]) for s in blk["succs"]]
+        if "succs_all" in blk:
+            nb["succs_all"] = [None if s is None else (cont if s == g.exit else gid[s]) for s in blk["succs_all"]]
+        nb["inlined_from"] = g.qname
+        blocks[gid[gb]] = nb
+    h.blocks = blocks
+    h.entry = newid[h.entry]
+    h.exit = newid[h.exit]
+    for attr in ("_dom", "_pdom", "_preds", "_live", "_abnormal", "_stable"):
+        setattr(h, attr, None)
+    h._reach_cache = {}
